@@ -52,6 +52,8 @@ def check(repo: Repo, R) -> None:
                                         "the invented name evicts a hand-placed instance or signal of the same name from the module: a device (or a net) of the written circuit is missing from the package"))
     R.run(_c13.none_skipped, repo, shared.Retag(R, lambda r, k: "C01.17-devices-and-parameters-kept" if k.endswith("only-none") else None,
                                                 "a parameter explicitly set to a falsy value (0, 0.0, False, '') is dropped: the device is netlisted with the model's default"))
+    # "the same leaf devices": an ideal element is written as the VLSIR primitive that is that element
+    R.run(_c13.ideal_primitives, repo, R, "C01.17-devices-and-parameters-kept")
     R.run(total_loops, repo, R, noret)
     R.run(copy_port_internal, repo, R)
     R.run(copy_aliasing, repo, R, "C01.12-copy-shares-backrefs")
